@@ -21,6 +21,36 @@ mod tj;
 mod util;
 mod vt;
 
+/// Counting allocator: remembers the largest single allocation REQUEST (>= 1 MiB) since the last reset, so that "memory out of
+/// proportion to the input" (C19) is observed directly and not only when an address-space limit happens to be hit.
+pub struct Counting;
+pub static MAX_REQ: std::sync::atomic::AtomicUsize = std::sync::atomic::AtomicUsize::new(0);
+#[inline]
+fn note_req(n: usize) {
+	if n >= 1 << 20 {
+		MAX_REQ.fetch_max(n, std::sync::atomic::Ordering::Relaxed);
+	}
+}
+unsafe impl std::alloc::GlobalAlloc for Counting {
+	unsafe fn alloc(&self, l: std::alloc::Layout) -> *mut u8 {
+		note_req(l.size());
+		std::alloc::System.alloc(l)
+	}
+	unsafe fn dealloc(&self, p: *mut u8, l: std::alloc::Layout) {
+		std::alloc::System.dealloc(p, l)
+	}
+	unsafe fn alloc_zeroed(&self, l: std::alloc::Layout) -> *mut u8 {
+		note_req(l.size());
+		std::alloc::System.alloc_zeroed(l)
+	}
+	unsafe fn realloc(&self, p: *mut u8, l: std::alloc::Layout, n: usize) -> *mut u8 {
+		note_req(n);
+		std::alloc::System.realloc(p, l, n)
+	}
+}
+#[global_allocator]
+static GLOBAL: Counting = Counting;
+
 fn main() {
 	// panics in code under test are data; keep stderr quiet
 	if std::env::var("VERIF_PANIC_VERBOSE").is_err() {
